@@ -106,11 +106,14 @@ def fill_module(rng, mod, earlier):
     if rng.random() < 0.25:
         # optional dependency that may or may not exist (created later in C09 histories)
         items.append(['tryimport', 'zqlate_' + s])
-    attr_pkgs = [m for m in earlier if m.get('init') and m['iface'].get('attrs')]
+    attr_pkgs = [m for m in earlier if m.get('init') and m['iface'].get('attrs')
+                 # (a package that re-exports from this very module must not be imported by it: circular import)
+                 and not any(it[0] == 'from' and it[1] == '.' + s for it in m['items'])]
     if attr_pkgs and rng.random() < 0.4:
         pk = rng.choice(attr_pkgs)
         items.append(['from', pk['name'], rng.choice(pk['iface']['attrs']), None])
-    pkgs = [m['name'] for m in earlier if m.get('init')]
+    pkgs = [m['name'] for m in earlier if m.get('init')
+            and not any(it[0] == 'from' and it[1] == '.' + s for it in m['items'])]
     if pkgs and rng.random() < 0.25:
         # optional sub-module of an existing package, imported as an attribute of the package
         items.append(['tryfrom', rng.choice(pkgs), 'zqlsub_' + s])
@@ -135,6 +138,14 @@ def fill_module(rng, mod, earlier):
                 else:
                     sattrs.append(a)
             methods.append(['me_%s_%d_%d' % (s, i, j), sattrs])
+        if rng.random() < 0.7:
+            # an instance attribute under one name in every class (base classes and subclasses both assign it),
+            # sometimes from a local that is bound on two flows
+            if rng.random() < 0.5 and len(all_ctors) >= 1:
+                alt = rng.choice([c + '()' for c in all_ctors] + ["'s'"])
+                methods.append(['setsz', [['sz', 'zv']], 'self', ['zv', rng.choice(all_ctors) + '()', alt]])
+            else:
+                methods.append(['setsz', [['sz', rng.choice([c + '()' for c in all_ctors] + ["'sz_%s'" % tag])]], 'self'])
         if rng.random() < 0.6:
             # chains and cycles between classes: K0().nxt() is a K1, K1().nxt() is a K0 ...
             methods.append(['nxt', [], rng.choice(all_ctors) + '()'])
@@ -221,6 +232,12 @@ def render(mod):
             for meth in it[4]:
                 mname, sattrs = meth[0], meth[1]
                 out.append('    def %s(self):' % mname)
+                if len(meth) > 3:
+                    # a local bound on two flows: [name, value if, value else]
+                    out.append('        if self:')
+                    out.append('            %s = %s' % (meth[3][0], meth[3][1]))
+                    out.append('        else:')
+                    out.append('            %s = %s' % (meth[3][0], meth[3][2]))
                 for a in sattrs:
                     if isinstance(a, list):
                         out.append('        self.%s = %s' % (a[0], a[1]))
@@ -465,8 +482,10 @@ def gen_request(rng, spec, kinds=('assist', 'location', 'lint'), uid=None, targe
     if rng.random() < 0.03 and filename == 'zqmain.py':
         head.insert(len(head) - 1, 'from . import %s' % short(mname))      # relative import outside a package
     if kind == 'assist':
-        shape = rng.choice(('attr', 'attr', 'call', 'module', 'name', 'import', 'inherit', 'deep', 'chain', 'chain'))
-        if shape == 'chain' and nkind in ('class', 'func', 'inst', 'multi'):
+        shape = rng.choice(('attr', 'attr', 'call', 'module', 'name', 'import', 'inherit', 'deep', 'chain', 'chain', 'selfattr'))
+        if shape == 'selfattr' and nkind in ('class', 'func', 'inst', 'multi'):
+            tail = ref + ('()' if nkind in ('class', 'func') else '') + '.sz.'
+        elif shape == 'chain' and nkind in ('class', 'func', 'inst', 'multi'):
             tail = ref + ('()' if nkind in ('class', 'func') else '') + '.nxt()' * rng.choice((1, 2, 3)) + '.'
         elif shape == 'module' and modref:
             tail = modref + '.'
@@ -574,6 +593,12 @@ def cycle_requests(rng, spec):
                 out.append({'kind': 'assist', 'source': src, 'position': [2, len(src.split('\n')[1])], 'file': 'zqmain.py'})
                 src = 'from %s import %s\nzr = %s([]).common\n' % (mn, it[1], it[1])
                 out.append({'kind': 'location', 'source': src, 'position': [2, len(src.split('\n')[1]) - 2], 'file': 'zqmain.py'})
+            if it[0] == 'class' and any(me[0] == 'setsz' for me in it[4]):
+                # through an instance attribute that base classes and subclasses both assign
+                src = 'import %s\nzr = %s.%s().sz.\n' % (mn, mn, it[1])
+                out.append({'kind': 'assist', 'source': src, 'position': [2, len(src.split('\n')[1])], 'file': 'zqmain.py'})
+                src = 'from %s import %s\nzr = %s().sz\n' % (mn, it[1], it[1])
+                out.append({'kind': 'location', 'source': src, 'position': [2, len(src.split('\n')[1]) - 1], 'file': 'zqmain.py'})
             if it[0] == 'class' and any(me[0] == 'nxt' for me in it[4]):
                 n = rng.choice((1, 2, 3))
                 src = 'import %s\nzr = %s.%s()%s.\n' % (mn, mn, it[1], '.nxt()' * n)
@@ -605,5 +630,12 @@ def relative_requests(rng, spec):
                 n = rng.choice(names)
                 src = 'from %s%s import %s\nzr = %s\n' % (dots, sm, n, n)
                 out.append({'kind': 'location', 'source': src, 'position': [2, 5 + len(n)], 'file': fname})
+    # the same from a buffer that is not in a package at all (every such request fails, and fails the same way)
+    tops = [m for m in spec['modules'] if not m.get('init') and '.' not in m['name']]
+    for m in tops[:2]:
+        sm = m['name']
+        src = 'from . import %s\n%s.\n' % (sm, sm)
+        out.append({'kind': 'assist', 'source': src, 'position': [2, len(sm) + 1], 'file': 'zqmain.py'})
+        out.append({'kind': 'assist', 'source': 'from .%s import \n' % sm, 'position': [1, len(sm) + 14], 'file': 'zqmain.py'})
     rng.shuffle(out)
     return out
